@@ -156,7 +156,7 @@ class Hist:
         self.xl = (0, 0)
         self.saved = []       # (kind, xl, cursor set?)
         self.cursor = False
-        self.spans = False    # does this history use the span query (known findings get_span_*: only some do)
+        self.spans = True     # does this history use the span query
 
     def emit(self, s):
         self.ops.append(s)
@@ -283,7 +283,6 @@ def random_history():
         if rng.random() < 0.4: h.emit(f"goto {h.line()} {h.col()}"); h.cursor = True
         h.emit("save"); h.saved.append(("save", h.xl, h.cursor))
         if rng.random() < 0.5: h.emit("mask %d %d %d %d" % h.rect())
-    h.spans = rng.random() < 0.25
     for _ in range(n):
         h.step()
         if rng.random() < 0.06:
@@ -308,7 +307,6 @@ def wide_history():
     C = rng.choice([66, 130, 258, 300, 514, 520, 1026, 1030])
     sizes[f"{L}x{C}"] += 1
     h = Hist(L, C)
-    h.spans = rng.random() < 0.25
     lens = sorted(set(rng.choice(BOUNDARIES[3 * k:3 * k + 3] if rng.random() < 0.7 else BOUNDARIES[:3 * k + 3])
                       for k in range(4) for _ in range(rng.randint(1, 2)) if BOUNDARIES[3 * k] <= C + 2))
     if rng.random() < 0.3: h.emit(f"setpen {gen_pen()}")
@@ -388,8 +386,7 @@ def exhaustive():
                 out.append("getcells")
                 n += 1
                 if k <= 2:
-                    # the same program again, looked at through the single-cell and span queries (separate histories:
-                    # the span query has known findings)
+                    # the same program again, looked at through the single-cell and span queries
                     out.append("new 2 5")
                     out.extend(pro)
                     out.extend(prog)
